@@ -1,5 +1,5 @@
 """Single source of truth for MANIFEST.json (bin/mkmanifest)."""
-HOOK_COMMITS = []
+HOOK_COMMITS = ["c3a3c99"]
 NOT_APPLICABLE = {}
 CLAIMED = {
  "C08": {
@@ -19,5 +19,11 @@ CLAIMED = {
   "technique": "TLA+ lifecycle spec Goom.tla model-checked with TLC; every history of the stub alphabet to a depth replayed through four handle kinds with explicit calls as oracle-checked steps",
   "text": "The requirement layer of spec/Goom.tla is 'last instruction wins per target, When clauses accumulate across lookups, Apply supersedes stubs, Return/When after Apply supersede the callback, fresh start after Cancel/Reset'; the mechanism layer mirrors builder cache / mocker / When object. TLC checks mechanism=>requirement for every call in every reachable state (1 builder, 2 targets, 2 callbacks, result sequences, depth 4/5) and prints every history to depth 3/4 (1 target) and 2/3 (2 targets) plus seeded random length-10 histories over all ops; each is replayed on the real API with every Call's result compared to the required one.",
   "note": "Trusted: TLC, Go replayer. Left unconstrained (property text silent): a bare Return/Returns on a handle that already has stubs; targets touched by two builders. Pkg() override and Interface/Var handles are covered by C07/C08 specs, not here.",
+ },
+ "C05": {
+  "ref": "DESIGN.md §4 C05",
+  "technique": "TLA+ specs Goom.tla (cursor per stub) and Seq.tla (atomic steps of Result) model-checked with TLC; every TLC interleaving replayed on real goroutines through gate hooks; free-running traces validated by TLC (Trace_Seq.tla)",
+  "text": "Sequential: Goom.tla keeps one cursor per stub (default and each condition) in both the mechanism and the requirement layer; TLC checks every call's result against 'k-th selection returns element min(k,n)' and all histories of Return/Returns/When/Call/Reset to depth 3/4 plus random call strings of length 14 are replayed on the real API. Concurrent: Seq.tla has the three atomic steps of BaseMatcher.Result as separate actions; TLC checks range, per-caller monotonicity, real-time stickiness of the last element and real-time monotonicity over every interleaving (2-3 callers), prints every complete interleaving, and the driver replays each one deterministically on real goroutines through the matcher.loaded hook comparing every returned element; racing free-running callers under the race detector record start/end tickets and TLC accepts the trace iff some interleaving of the unlogged Load/Add steps explains it (a corrupted copy must be rejected on every run).",
+  "note": "Trusted: TLC, the gate scheduler (one goroutine runs at a time; 3 s step timeout is exit 2, not a violation), ticket ordering (overlapping calls are treated as concurrent, which only makes the check more permissive). Requires the verif hooks (matcher.loaded / matcher.added).",
  },
 }
